@@ -96,6 +96,13 @@ MUTANTS = [
     ("convolution-filter-z-block-uses-y-stencil", E3 + "laplacian_filter_3d.py", "            laplacian_filter_3d_z(filter_flux=filter_flux_buffer, field=field_buffer)\n            elementwise_copy_3d(field=field_buffer, rhs_field=filter_flux_buffer)\n        elementwise_saxpby_3d(",
      "            laplacian_filter_3d_y(filter_flux=filter_flux_buffer, field=field_buffer)\n            elementwise_copy_3d(field=field_buffer, rhs_field=filter_flux_buffer)\n        elementwise_saxpby_3d(", ["C05", "C13", "C19"]),
     ("fastdiag-2d-default-bc-spelling", P2 + "FastDiagPoissonSolver2D.py", 'bc_type: Literal["homogenous_neumann_along_xy"] = "homogenous_neumann_along_xy",', 'bc_type: Literal["homogeneous_neumann_along_xy"] = "homogeneous_neumann_along_xy",', ["C11"]),
+    ("outplane-curl-2d-ghost-width-two", E2 + "outplane_field_curl_2d.py", "            boundary_width = 1\n", "            boundary_width = 2\n", ["C12", "C13", "C01"]),
+    ("free-stream-skipped-when-max-is-zero", NS, "            ) -> None:\n                add_fixed_val(\n                    sum_field=self.velocity_field,", "            ) -> None:\n                if not np.max(free_stream_velocity):\n                    return\n                add_fixed_val(\n                    sum_field=self.velocity_field,", ["C14", "C01"]),
+    ("timestep-3d-viscosity-divided-by-density", NS, "            kinematic_viscosity=self.kinematic_viscosity,\n            real_t=self.real_t,\n        )\n        return dt * dt_prefac", "            kinematic_viscosity=self.kinematic_viscosity / self.flow_density,\n            real_t=self.real_t,\n        )\n        return dt * dt_prefac", ["C16"], -1),
+    ("eulerian-io-3d-origin-uses-y-for-x", "sopht/utils/io.py", "                        position_field[spu.VectorField.y_axis_idx()].min(),\n                        position_field[spu.VectorField.x_axis_idx()].min(),\n                    ]\n                )\n            case _:",
+     "                        position_field[spu.VectorField.y_axis_idx()].min(),\n                        position_field[spu.VectorField.y_axis_idx()].min(),\n                    ]\n                )\n            case _:", ["C17"]),
+    ("advection-3d-vector-y-advanced-twice", E3 + "advection_timestep_3d.py", "                    field=vector_field[z_axis_idx],", "                    field=vector_field[y_axis_idx],", ["C20", "C13", "C01"]),
+    ("restart-max-over-strings", "sopht/utils/restart_sim.py", "iter_num = [int(filename.stem.split(\"_\")[-1]) for filename in Path.cwd().glob(\"sopht_*.h5\")]", "iter_num = [filename.stem.split(\"_\")[-1] for filename in Path.cwd().glob(\"sopht_*.h5\")]", ["C18"]),
 ]
 
 # behaviour-preserving edits: every listed check must stay silent
@@ -135,6 +142,7 @@ CONTROLS = [
      "        self.set_fixed_val_kernel_2d(field=self.domain_doubled_buffer[self.grid_size_y :, :], fixed_val=0)\n        self.set_fixed_val_kernel_2d(field=self.domain_doubled_buffer[: self.grid_size_y, self.grid_size_x :], fixed_val=0)\n\n        self.elementwise_copy_kernel_2d(", ["C03", "C18", "C01", "C15"]),
     ("rigid-wrapper-keyword-arguments", "sopht/simulator/immersed_body/rigid_body/rigid_body_flow_interaction.py", "            enable_eul_grid_forcing_reset,\n            num_threads,\n            start_time,\n            **forcing_grid_kwargs,\n        )",
      "            num_threads=num_threads,\n            enable_eul_grid_forcing_reset=enable_eul_grid_forcing_reset,\n            start_time=start_time,\n            **forcing_grid_kwargs,\n        )", ["C10"]),
+    ("restart-max-with-int-key", "sopht/utils/restart_sim.py", "    latest = max(iter_num)", "    latest = int(max(iter_num, key=int))", ["C18"]),
 ]
 
 
